@@ -698,6 +698,13 @@ func (ts *TermStore) Add(a, b *Term) *Term {
 	if ts.isZero(b) {
 		return a
 	}
+	// (a - b) + b = a
+	if a.op == OpSub && a.args[1] == b {
+		return a.args[0]
+	}
+	if b.op == OpSub && b.args[1] == a {
+		return b.args[0]
+	}
 	if a.w <= 512 {
 		if r := ts.disjointSegments(OpAdd, a, b); r != nil {
 			return r
